@@ -17,6 +17,7 @@ func init() {
 			{"ONE-TO-ONE-SCAN", ruleOneToOneScan},
 			{"ORDER-DIRECTION-CARRIED", func(c *eng.Ctx) { ruleOrderDirectionCarried(c, "ORDER-DIRECTION-CARRIED") }},
 			{"JOIN-END", ruleJoinEnd},
+			{"JOIN-INVERT-GUARDS", ruleJoinInvertGuards},
 			{"SEEN-SET", func(c *eng.Ctx) { ruleSeenSet(c, "SEEN-SET", []string{"internal/planner/..."}, 1) }},
 			{"RECURSION-ARGS", func(c *eng.Ctx) {
 				ruleRecursionArgs(c, "RECURSION-ARGS", []string{"internal/planner/..."}, 3)
